@@ -98,6 +98,18 @@ fn build_layout(dir: &Path, tar: bool, rng: &mut Rng) -> Result<(std::path::Path
 	canary(&outer.join("index.html"), 0, rng)?;
 	canary(&dir.join("abs_canary.txt"), 0, rng)?;
 	canary(&dir.join("abs_canary2.txt.gz"), 1, rng)?;
+	// a symlinked directory inside the root: what it points to is served legitimately, its siblings are not
+	let mut inside = inside;
+	if !tar {
+		let v2 = outer.join("releases").join("v2");
+		std::fs::create_dir_all(&v2).map_err(|e| e.to_string())?;
+		let t = tok("linked", rng);
+		std::fs::write(v2.join("app.js"), &t).map_err(|e| e.to_string())?;
+		inside.insert("current/app.js".into(), t);
+		canary(&outer.join("releases").join("secret.txt"), 0, rng)?;
+		canary(&outer.join("releases").join("index.html"), 0, rng)?;
+		let _ = std::os::unix::fs::symlink("../releases/v2", root.join("current"));
+	}
 	let layout = Layout { inside, canaries, abs_canary: dir.join("abs_canary.txt").display().to_string(), abs_canary_gz_only: dir.join("abs_canary2.txt").display().to_string() };
 	if tar {
 		// an archive with the same inside files (hand-written ustar)
@@ -141,7 +153,7 @@ fn tar_header(name: &str, size: usize) -> [u8; 512] {
 }
 
 fn alphabet(l: &Layout) -> Vec<String> {
-	let mut a: Vec<String> = ["a.txt", "sub", "b.txt", "index.html", ".", "..", "", "%2e%2e", "%2E%2e", "..%2f", "%2f", "..;", "secret.txt", "secret2.txt", "secret3.txt", "sibling", "s.txt", "root", "outer", "c.css", "d.js", "..%5c", "%2e%2e%2f", "....", ".%2e"]
+	let mut a: Vec<String> = ["a.txt", "sub", "b.txt", "index.html", ".", "..", "", "%2e%2e", "%2E%2e", "..%2f", "%2f", "..;", "secret.txt", "secret2.txt", "secret3.txt", "sibling", "s.txt", "root", "outer", "c.css", "d.js", "..%5c", "%2e%2e%2f", "....", ".%2e", "current", "app.js", "releases", "v2"]
 		.iter()
 		.map(|s| s.to_string())
 		.collect();
@@ -244,7 +256,7 @@ fn run_case(cx: &CaseCtx, rep: &mut Report) {
 	}
 	// classic escapes ending in a canary name
 	for up in 1..=6 {
-		for name in ["secret.txt", "secret2.txt", "secret3.txt", "sibling/s.txt", "index.html", "outer/secret.txt"] {
+		for name in ["secret.txt", "secret2.txt", "secret3.txt", "sibling/s.txt", "index.html", "outer/secret.txt", "releases/secret.txt"] {
 			let mut s: Vec<String> = vec!["..".to_string(); up];
 			s.extend(name.split('/').map(String::from));
 			seqs.push(s.clone());
@@ -252,6 +264,12 @@ fn run_case(cx: &CaseCtx, rep: &mut Report) {
 			t.extend(s);
 			seqs.push(t);
 		}
+	}
+	// parent-directory segments behind the symlinked directory
+	for tail in [vec!["..", "secret.txt"], vec!["..", "index.html"], vec![".."], vec!["..", ""], vec!["..", "..", "secret.txt"], vec!["app.js", "..", "..", "secret.txt"]] {
+		let mut s = vec!["current".to_string()];
+		s.extend(tail.iter().map(|x| x.to_string()));
+		seqs.push(s);
 	}
 	for s in seqs {
 		push(s.clone(), "/", true, false, &mut targets);
